@@ -14,8 +14,11 @@ import sys
 import tempfile
 import warnings
 
-DATA_FILES = ("objectdb", "objectdb.json", "history", "history.json")   # order of Persist.all_files
-EXC_EOF, EXC_UNPICKLING, EXC_OTHER = 0, 1, 2
+DATA_FILES = ("objectdb", "objectdb.json", "history", "history.json",
+              "globalnames", "globalnames.json")                       # order of Persist.all_files
+PICKLES = ("objectdb", "history", "globalnames")
+OBS_KEY = {"objectdb": "odb", "history": "hist", "globalnames": "names"}
+EXC_EOF, EXC_UNPICKLING, EXC_TYPE, EXC_INDEX, EXC_KEY, EXC_ATTRIBUTE, EXC_OTHER = 0, 1, 2, 3, 4, 5, 6
 
 
 # ----------------------------------------------------------------------------- abstraction of values
@@ -73,7 +76,21 @@ def exc_class(e):
         return EXC_EOF
     if isinstance(e, pickle.UnpicklingError):
         return EXC_UNPICKLING
+    for cls, code in ((TypeError, EXC_TYPE), (IndexError, EXC_INDEX), (KeyError, EXC_KEY),
+                      (AttributeError, EXC_ATTRIBUTE)):
+        if type(e) is cls:
+            return code
     return EXC_OTHER
+
+
+EMPTY_NAMES = ["d", []]
+
+
+def _autoimport(project, observe):
+    from rope.contrib.autoimport.pickle import AutoImport
+    with warnings.catch_warnings():
+        warnings.simplefilter("ignore")
+        return AutoImport(project, observe=observe)
 
 
 # ----------------------------------------------------------------------------- pickle on every prefix
@@ -227,17 +244,97 @@ class trace_save:
         return False
 
 
-def trace_crash_states(old_dir, trace):
-    """Replays the traced operations on the rope folder as it was before the save (old_dir: {name: bytes}),
-    one byte at a time, in program order. Returns [(op index, bytes of that op done, {name: bytes})] -
-    the folder after every prefix (consecutive duplicates dropped)."""
+def _apply_bytes(files, name, entries):
+    """entries: [(pos | None for append, byte)] applied in order to files[name]."""
+    c = files.get(name) or b""
+    for pos, byte in entries:
+        if pos is None:
+            pos = len(c)
+        if pos > len(c):
+            c = c + b"\0" * (pos - len(c))
+        c = c[:pos] + byte + c[pos + 1:]
+    files[name] = c
+
+
+def trace_crash_states(old_dir, trace, buffered=True):
+    """The rope folder after every prefix of the traced operations, starting from old_dir ({name: bytes}).
+    Program order: every write reaches its file at once, one byte at a time.
+    buffered=True adds what buffering allows (the `delays` relation of the model applied to the traced
+    operations): the bytes written through a handle stay pending until an operation on that handle (truncate /
+    seek / close flush it); at each point the pending bytes of one handle are on disk up to any prefix while the
+    pending bytes of the other handles are all absent or all present.
+    Returns [(op index, bytes of that op done, {name: bytes})], duplicates dropped."""
+    seen = set()
+    states = []
+
+    def emit(i, k, files):
+        key = tuple(sorted(files.items()))
+        if key not in seen:
+            seen.add(key)
+            states.append((i, k, dict(files)))
+
+    # ---- program order
     files = dict(old_dir)
     handles = {}
-    states = [(-1, 0, dict(files))]
+    emit(-1, 0, files)
+    for i, ev in enumerate(trace):
+        kind = ev[0]
+        if kind == "open":
+            name, trunc, mode, hid = ev[1], ev[2], ev[3], ev[4]
+            if trunc or files.get(name) is None:
+                files[name] = b""
+            handles[hid] = {"name": name, "pos": 0, "append": "a" in mode}
+            emit(i, 0, files)
+        elif kind == "write":
+            h = handles.setdefault(ev[3], {"name": ev[1], "pos": 0, "append": False})
+            for k in range(len(ev[2])):
+                _apply_bytes(files, h["name"], [(None if h["append"] else h["pos"], ev[2][k:k + 1])])
+                h["pos"] += 1
+                emit(i, k + 1, files)
+        elif kind == "truncate":
+            c = files.get(ev[1]) or b""
+            files[ev[1]] = c[:ev[2]] + b"\0" * max(0, ev[2] - len(c))
+            emit(i, 0, files)
+        elif kind == "seek":
+            if ev[3] in handles:
+                handles[ev[3]]["pos"] = ev[2]
+        elif kind == "replace":
+            c = files.pop(ev[1], None)
+            if not ev[2].startswith("?") and c is not None:
+                files[ev[2]] = c
+                for h in handles.values():
+                    if h["name"] == ev[1]:
+                        h["name"] = ev[2]
+            emit(i, 0, files)
+        elif kind == "remove":
+            files.pop(ev[1], None)
+            emit(i, 0, files)
+    if not buffered:
+        return states
 
-    def snap(i, k):
-        if states[-1][2] != files:
-            states.append((i, k, dict(files)))
+    # ---- buffered: writes stay pending per handle until an operation on that handle
+    files = dict(old_dir)
+    handles = {}
+
+    def variants(i, focus=None, lo=0):
+        """focus handle: every prefix (from lo) of its pending bytes; other handles: none / all pending."""
+        others = [h for h in handles.values() if h is not focus and h["pending"]]
+        for all_others in ((False, True) if others else (False,)):
+            base = dict(files)
+            if all_others:
+                for h in others:
+                    _apply_bytes(base, h["name"], h["pending"])
+            if focus is None:
+                emit(i, 0, base)
+                continue
+            for k in range(lo, len(focus["pending"]) + 1):
+                st = dict(base)
+                _apply_bytes(st, focus["name"], focus["pending"][:k])
+                emit(i, k, st)
+
+    def flush(h):
+        _apply_bytes(files, h["name"], h["pending"])
+        h["pending"] = []
 
     for i, ev in enumerate(trace):
         kind = ev[0]
@@ -245,40 +342,38 @@ def trace_crash_states(old_dir, trace):
             name, trunc, mode, hid = ev[1], ev[2], ev[3], ev[4]
             if trunc or files.get(name) is None:
                 files[name] = b""
-            handles[hid] = [name, 0, "a" in mode]
-            snap(i, 0)
+            handles[hid] = {"name": name, "pos": 0, "append": "a" in mode, "pending": []}
         elif kind == "write":
-            name, data, hid = ev[1], ev[2], ev[3]
-            h = handles.get(hid) or [name, 0, False]
-            for k in range(len(data)):
-                c = files.get(h[0]) or b""
-                pos = len(c) if h[2] else h[1]
-                if pos > len(c):
-                    c = c + b"\0" * (pos - len(c))
-                files[h[0]] = c[:pos] + data[k:k + 1] + c[pos + 1:]
-                h[1] = pos + 1
-                snap(i, k + 1)
-        elif kind == "truncate":
-            name, size = ev[1], ev[2]
-            c = files.get(name) or b""
-            files[name] = c[:size] + b"\0" * max(0, size - len(c))
-            snap(i, 0)
-        elif kind == "seek":
-            h = handles.get(ev[3])
-            if h:
-                h[1] = ev[2]
+            h = handles.setdefault(ev[3], {"name": ev[1], "pos": 0, "append": False, "pending": []})
+            lo = len(h["pending"])
+            for k in range(len(ev[2])):
+                h["pending"].append((None if h["append"] else h["pos"], ev[2][k:k + 1]))
+                h["pos"] += 1
+            variants(i, h, lo)
+            continue
+        elif kind in ("truncate", "seek", "close"):
+            h = handles.get(ev[-1])
+            if h is not None:
+                flush(h)
+            if kind == "truncate":
+                c = files.get(ev[1]) or b""
+                files[ev[1]] = c[:ev[2]] + b"\0" * max(0, ev[2] - len(c))
+            elif kind == "seek" and h is not None:
+                h["pos"] = ev[2]
         elif kind == "replace":
-            src, dst = ev[1], ev[2]
-            c = files.pop(src, None)
-            if not dst.startswith("?") and c is not None:
-                files[dst] = c
+            c = files.pop(ev[1], None)
+            if not ev[2].startswith("?") and c is not None:
+                files[ev[2]] = c
                 for h in handles.values():
-                    if h[0] == src:
-                        h[0] = dst
-            snap(i, 0)
+                    if h["name"] == ev[1]:
+                        h["name"] = ev[2]
         elif kind == "remove":
             files.pop(ev[1], None)
-            snap(i, 0)
+        # after an operation that is not a write: each handle's pending bytes up to any prefix
+        variants(i)
+        for h in list(handles.values()):
+            if h["pending"]:
+                variants(i, h)
     return states
 
 
@@ -290,7 +385,7 @@ def _open_project(root, **prefs):
         return Project(root, save_history=True, save_objectdb=True, **prefs)
 
 
-def apply_ops(project, ops, use_history=True):
+def apply_ops(project, ops, ai=None):
     """Perform the ops of one session through the public API. Ops that rope refuses are skipped."""
     from rope.base import change as ch, libutils
     done = 0
@@ -330,6 +425,9 @@ def apply_ops(project, ops, use_history=True):
                 libutils.analyze_module(project, project.get_resource(op[1]))
             elif kind == "sync":
                 project.sync()
+            elif kind == "gencache":
+                if ai is not None:
+                    ai.generate_cache()
             else:
                 raise ValueError(kind)
             done += 1
@@ -422,46 +520,86 @@ def run_scenario(sc):
         return {"scenario": sc, "failure": "%s: %s (%s)" % (type(e).__name__, str(e)[:120], where)}
 
 
+def _session(root, prefs, auto_mode, use_history, ops):
+    p = _open_project(root, **prefs)
+    ai = _autoimport(p, True) if auto_mode == "first" else None     # hook registered before History's
+    if use_history:
+        _ = p.history
+    if auto_mode == "last":
+        ai = _autoimport(p, True)
+    apply_ops(p, ops, ai)
+    return p, ai
+
+
+def _traced_close(root, p, ai):
+    """Close p under the tracer; returns what the save was expected to store and what it did."""
+    res = {}
+    if ai is not None:
+        res["expected_names"] = to_pv(ai.names)
+    # what the save is expected to store, read off the live objects (after History.write's trimming)
+    hist_used = any(type(getattr(h, "__self__", None)).__name__ == "History" for h in p.data_files.hooks)
+    res["history_hook"] = bool(hist_used)
+    if hist_used:
+        h = p.history
+        maxu = h.max_undos
+        undo = list(h.undo_list)
+        if len(undo) > maxu:
+            undo = undo[len(undo) - maxu:]
+        res["live_history"] = history_pv(h.undo_list, h.redo_list)
+        res["expected_history"] = history_pv(undo, h.redo_list)
+        res["max_undos"] = maxu
+    res["expected_objectdb"] = to_pv(p.pycore.object_info.objectdb.files._files)
+    res["tree"] = {k: (None if v is None else v.decode("latin-1")) for k, v in read_tree(root).items()}
+    res["old_files"] = read_data_files(root)      # the disk the traced save starts from
+    res["old_dir"] = {n: c.decode("latin-1") for n, c in read_rope_dir(root).items()}
+    with trace_save(os.path.join(root, ".ropeproject")) as tr:
+        p.close()
+    res["trace"] = [list(ev[:2]) + [ev[2].decode("latin-1")] + list(ev[3:]) if ev[0] == "write" else list(ev)
+                    for ev in tr.log]
+    res["new_files"] = read_data_files(root)
+    return res
+
+
 def _run_scenario(sc):
     root = tempfile.mkdtemp(prefix="ropeverif-")
     try:
         prefs = dict(sc.get("prefs") or {})
-        res = {"scenario": sc}
+        auto = sc.get("autoimport") or {}
         if sc.get("session1") is not None:
             p = _open_project(root, **dict(sc.get("prefs1", prefs) or {}))
+            ai = _autoimport(p, True) if auto.get("s1") else None
             _ = p.history
-            apply_ops(p, sc["session1"])
+            apply_ops(p, sc["session1"], ai)
             p.close()
         else:
             os.makedirs(root, exist_ok=True)
-        p = _open_project(root, **prefs)
-        if sc.get("use_history2", True):
-            _ = p.history
-        apply_ops(p, sc["session2"])
-        # what the save is expected to store, read off the live objects (after History.write's trimming)
-        hooks = len(p.data_files.hooks)
-        res["hooks"] = hooks
-        hist_used = any(type(getattr(h, "__self__", None)).__name__ == "History" for h in p.data_files.hooks)
-        res["history_hook"] = bool(hist_used)
-        if hist_used:
-            h = p.history
-            maxu = h.max_undos
-            undo = list(h.undo_list)
-            if len(undo) > maxu:
-                undo = undo[len(undo) - maxu:]
-            res["live_history"] = history_pv(h.undo_list, h.redo_list)
-            res["expected_history"] = history_pv(undo, h.redo_list)
-            res["max_undos"] = maxu
-            res["undo_len"] = len(h.undo_list)
-        res["expected_objectdb"] = to_pv(p.pycore.object_info.objectdb.files._files)
-        res["tree"] = {k: (None if v is None else v.decode("latin-1")) for k, v in read_tree(root).items()}
-        res["old_files"] = read_data_files(root)      # the disk the traced save starts from
-        res["old_dir"] = {n: c.decode("latin-1") for n, c in read_rope_dir(root).items()}
-        with trace_save(os.path.join(root, ".ropeproject")) as tr:
-            p.close()
-        res["trace"] = [list(ev[:2]) + [ev[2].decode("latin-1")] + list(ev[3:]) if ev[0] == "write" else list(ev)
-                        for ev in tr.log]
-        res["new_files"] = read_data_files(root)
+        p, ai = _session(root, prefs, auto.get("s2"), sc.get("use_history2", True), sc["session2"])
+        res = _traced_close(root, p, ai)
+        if sc.get("session3") is not None:
+            # the save of session 2 dies at a crash point; session 3 starts from what it left, works, and its
+            # save is the one examined (so the "previous version" on disk is itself a torn one)
+            crash = sc.get("crash") or {"wi": 0, "frac": 0.5}
+            order = []
+            for ev in res["trace"]:
+                if ev[0] == "open" and ev[1] in PICKLES and ev[1] not in order:
+                    order.append(ev[1])
+            cur = dict(res["old_files"])
+            new = res["new_files"]
+            for wi, name in enumerate(order):
+                if new.get(name) is None:
+                    continue
+                if wi < crash["wi"] % max(1, len(order)):
+                    cur[name], cur[name + ".json"] = new[name], new.get(name + ".json")
+                else:
+                    n = max(1, min(len(new[name]) - 1, int(crash["frac"] * len(new[name]))))
+                    cur[name], cur[name + ".json"] = new[name][:n], b""
+                    break
+            put_data_files(root, cur)
+            parent = {n: c for n, c in new.items() if c is not None and n in PICKLES}
+            p, ai = _session(root, prefs, auto.get("s2"), True, sc["session3"])
+            res = _traced_close(root, p, ai)
+            res["parent_pickles"] = {n: c.decode("latin-1") for n, c in parent.items()}
+        res["scenario"] = sc
         for k in ("old_files", "new_files"):
             res[k] = {n: (None if c is None else c.decode("latin-1")) for n, c in res[k].items()}
         return res
@@ -492,6 +630,7 @@ def observe(root, prefs=None, deep=True):
                 hp = Project(root, save_history=True, save_objectdb=False, **prefs)
             except Exception as e:
                 out["hist"] = ["raised", exc_class(e), type(e).__name__, "Project(save_objectdb=False)"]
+                out["names"] = ["raised", exc_class(e), type(e).__name__, "Project(save_objectdb=False)"]
                 out["errors"].append("opening the project without object db raises %s" % type(e).__name__)
                 return out
         try:
@@ -501,8 +640,22 @@ def observe(root, prefs=None, deep=True):
             out["hist"] = ["raised", exc_class(e), type(e).__name__, "project.history"]
             out["errors"].append("project.history raises %s: %s" % (type(e).__name__, str(e)[:80]))
             h = None
+        try:
+            ai = _autoimport(hp, False)
+            out["names"] = ["loaded", to_pv(ai.names)]
+        except Exception as e:
+            out["names"] = ["raised", exc_class(e), type(e).__name__, "AutoImport(project)"]
+            out["errors"].append("AutoImport(project) raises %s: %s" % (type(e).__name__, str(e)[:80]))
+            ai = None
         if not deep:
             return out
+        try:
+            if ai is not None:
+                ai.import_assist("f")
+                ai.get_modules("f")
+                ai.get_all_names()
+        except Exception as e:
+            out["errors"].append("querying the global-name cache raises %s: %s" % (type(e).__name__, str(e)[:80]))
         # use the project: history queries, module analysis, and a clean save / reopen
         try:
             if h is not None:
